@@ -13,10 +13,29 @@ from harness.world import State, ep_snapshot, HarnessError
 
 ck = Check('C18', 'exploration')
 A, B = S.IP_A, S.IP_B
+OTHER = {'addr': S.IP_C}
+SRC = {'a': S.IP_A, 'b': S.IP_B}
 COOKIE, INVALID_KE = 16390, 17
 
 
+FAMILY = {'v': 4}
+V6 = {'A': '2001:db8::a', 'B': '2001:db8::b', 'C': '2001:db8::c'}
+
+
 def base_world():
+    if FAMILY['v'] == 6:
+        c = S.base_confs(b_over={'dh': ['19', '20']})
+        ca, cb = c['A']['conn_ab'], c['B']['conn_ba']
+        ca['my_addr'], ca['peer_addr'] = V6['A'], V6['B']
+        cb['my_addr'], cb['peer_addr'] = V6['B'], V6['A']
+        c['B']['conn_bc'] = S.conn(V6['B'], V6['C'], "bob@openikev2", "carol@openikev2", "testing2", "testing3", [S.entry(8)])
+        w = S.new_world(c, {'A': [V6['A']], 'B': [V6['B']]})
+        w.sent_log = []
+        return w
+    return _base_world_v4()
+
+
+def _base_world_v4():
     """A and B as usual; B also has a connection to a third peer C (so that a request from another configured
     address can be tried)"""
     c = S.base_confs(b_over={'dh': ['19', '20']})
@@ -53,7 +72,14 @@ def foreign_requests():
     if not _foreign:
         for lab, over in (('ke-group-20', {'dh': ['20', '19']}), ('ke-group-14', {'dh': ['14']}), ('encr-aes128', {'encr': ['aes128']}),
                           ('prf-sha512', {'prf': ['sha512']})):
-            w = S.new_world(S.base_confs(a_over=over))
+            c = S.base_confs(a_over=over)
+            addrs = None
+            if FAMILY['v'] == 6:
+                ca, cb = c['A']['conn_ab'], c['B']['conn_ba']
+                ca['my_addr'], ca['peer_addr'] = V6['A'], V6['B']
+                cb['my_addr'], cb['peer_addr'] = V6['B'], V6['A']
+                addrs = {'A': [V6['A']], 'B': [V6['B']]}
+            w = S.new_world(c, addrs)
             w.step(('acquire', 'A', 0, 0))
             _foreign.append((lab, w.net[0].data))
         base = _foreign[0][1]
@@ -64,15 +90,15 @@ def foreign_requests():
     return _foreign
 
 
-def fill_half_open(w, req, n):
+def fill_half_open(w, req, n, same_spi=False):
     """n half-open responder IKE_SAs at B (distinct initiator SPIs, never completed)"""
     for i in range(n):
-        data = variant(req, spi=struct.pack('>Q', 0x1000 + i))
-        w.step(('inject', 'B', data, A))
+        data = variant(req, spi=struct.pack('>Q', 0x1000 + (0 if same_spi else i)))
+        w.step(('inject', 'B', data, SRC['a']))
         kind, cookie = classify_reply(w)
         w.net[:] = []
         if kind == 'cookie':        # already under load: a client that plays by the rules comes back with the cookie
-            w.step(('inject', 'B', variant(data, cookies=[cookie]), A))
+            w.step(('inject', 'B', variant(data, cookies=[cookie]), SRC['a']))
             w.net[:] = []
     half = sum(1 for s in w.endpoints['B'].controller.ike_sas if int(s.state) < int(State.ESTABLISHED))
     if half != n:
@@ -105,7 +131,8 @@ def table(ep):
     return [(bytes(s.my_spi), bytes(s.peer_spi), s.state.name) for s in ep.controller.ike_sas]
 
 
-def probe(w0, data, src=A):
+def probe(w0, data, src=None):
+    src = src or SRC['a']
     """inject one request at B on a copy; returns (kind, cookie, dh calls, table grew?, world)"""
     w = w0.fork()
     before = table(w.endpoints['B'])
@@ -115,7 +142,7 @@ def probe(w0, data, src=A):
     return kind, cookie, w.step_dh_calls, after != before, w
 
 
-def responder_cases():
+def responder_cases(same_spi=False):
     """yields (label, violations list, outcome)"""
     w = base_world()
     req = real_init_request(w)
@@ -124,7 +151,7 @@ def responder_cases():
     for n in range(0, thr + 4):
         wn = base_world()
         rq = real_init_request(wn)
-        fill_half_open(wn, rq, n)
+        fill_half_open(wn, rq, n, same_spi)
         kind, cookie, dh, grew, _ = probe(wn, rq)
         if kind == 'cookie' and measured is None:
             measured = n
@@ -140,7 +167,7 @@ def responder_cases():
         n = measured + extra
         w = base_world()
         req = real_init_request(w)
-        fill_half_open(w, req, n)
+        fill_half_open(w, req, n, same_spi)
         # --- no cookie
         kind, cookie, dh, grew, w1 = probe(w, req)
         v = []
@@ -158,8 +185,8 @@ def responder_cases():
         k2, c2, _, _, _ = probe(w, req)
         if c2 != good:
             yield ('n=%d:cookie-not-deterministic' % n, [('cookie-changes', 'two identical requests got different cookies')], k2)
-        for lab, data, src in (('other-spi', variant(req, spi=b'\x77' * 8), A), ('other-nonce', variant(req, nonce_flip=True), A),
-                               ('other-address', req, S.IP_C)):
+        for lab, data, src in (('other-spi', variant(req, spi=b'\x77' * 8), None), ('other-nonce', variant(req, nonce_flip=True), None),
+                               ('other-address', req, OTHER['addr'])):
             k3, c3, dh3, grew3, _ = probe(w, data, src)
             v = []
             if lab != 'other-address' and (k3 != 'cookie' or c3 == good):
@@ -172,7 +199,7 @@ def responder_cases():
             v.append(('valid-cookie-refused', 'request with the exact cookie answered with %s (table grew: %s)' % (kind, grew)))
         yield ('n=%d:valid-cookie' % n, v, kind)
 
-        def must_refuse(lab, data, src=A):
+        def must_refuse(lab, data, src=None):
             kind, c, dh, grew, _ = probe(w, data, src)
             v = []
             if kind != 'cookie':
@@ -190,7 +217,7 @@ def responder_cases():
         yield must_refuse('empty-cookie', variant(req, cookies=[b'']))
         yield must_refuse('replayed-with-other-spi', variant(req, spi=b'\x66' * 8, cookies=[good]))
         yield must_refuse('replayed-with-other-nonce', variant(req, nonce_flip=True, cookies=[good]))
-        yield must_refuse('replayed-from-other-address', variant(req, cookies=[good]), S.IP_C)
+        yield must_refuse('replayed-from-other-address', variant(req, cookies=[good]), OTHER['addr'])
         # cookie-less requests the negotiation would refuse anyway (KE in a non-preferred group, unacceptable proposal,
         # no KE at all): under load the answer is still the COOKIE notification only, without any negotiation work
         for lab, alt in foreign_requests():
@@ -232,7 +259,7 @@ def initiator_cases():
             w.step(('deliver', real.id))                # A sends IKE_AUTH
             fake = F.clear(first.data[0:8], b'\0' * 8, 34, 0x20, 0, [(F.NOTIFY, F.n_body(COOKIE, b'z' * 32))])
             auth = w.net[0]
-            w.step(('inject', 'A', fake, B))
+            w.step(('inject', 'A', fake, SRC['b']))
             if any(d.sender == 'A' for d in w.step_emitted):
                 v.append(('late-cookie-answered', 'a COOKIE reply after the real reply made the initiator send again'))
             w.deliver_all()
@@ -303,8 +330,14 @@ def replay(path):
     doc = jdec(json.load(open(path)))
     want = doc['label']
     res = []
-    for label, v, outcome in list(responder_cases()) + list(initiator_cases()):
-        if label == want:
+    fam = 6 if want.startswith('v6:') else 4
+    FAMILY['v'] = fam
+    SRC.update(a=S.IP_A if fam == 4 else V6['A'], b=S.IP_B if fam == 4 else V6['B'])
+    OTHER['addr'] = S.IP_C if fam == 4 else V6['C']
+    same = 'same-spi-fill:' in want
+    bare = want.split(':', 1)[1].replace('same-spi-fill:', '')
+    for label, v, outcome in list(responder_cases(same_spi=same)) + list(initiator_cases()):
+        if label == bare:
             res += v
     for r in res:
         print('reproduced:', r)
@@ -319,11 +352,21 @@ def main():
     outcomes = collections.Counter()
     labels = set()
     measured = None
-    for label, v, outcome in list(responder_cases()) + list(initiator_cases()):
+    runs = []
+    for fam in (4, 6):
+        FAMILY['v'] = fam
+        SRC.update(a=S.IP_A if fam == 4 else V6['A'], b=S.IP_B if fam == 4 else V6['B'])
+        OTHER['addr'] = S.IP_C if fam == 4 else V6['C']
+        _foreign.clear()
+        runs += [('v%d:%s' % (fam, l), v, o) for l, v, o in responder_cases()]
+        runs += [('v%d:same-spi-fill:%s' % (fam, l), v, o) for l, v, o in responder_cases(same_spi=True) if 'threshold' in l or 'no-cookie' in l]
+        runs += [('v%d:%s' % (fam, l), v, o) for l, v, o in initiator_cases()]
+    FAMILY['v'] = 4
+    for label, v, outcome in runs:
         n += 1
         labels.add(label)
         outcomes[(label.split(':')[-1] if 'n=' in label else label, str(outcome))] += 1
-        if label.startswith('threshold:measured='):
+        if ':threshold:measured=' in label and 'same-spi' not in label:
             measured = int(label.split('=')[1])
         for sig, msg in v:
             ck.violation('%s' % sig, '%s [%s]' % (msg, label), dict(label=label))
